@@ -167,6 +167,7 @@ ADDENDA = {
  "C11": "Plus a namespace-table sweep: every equality pattern of the four table entries (15 set partitions) x every record codec that takes a table, with reference lists drawn relative to the table.",
  "C13": "Histories include tag edits (plain and searchable) on base features, not only AddFeature. Every failing part of a merged change is also preceded by a searchable tag edit of each referencing seed feature (path, area, relation).",
  "C02": "Plus a token-table family: nodes n1, n2, n8 each untagged or carrying one of two values of amenity / shop / waterway / wikidata (729 inputs: every key as first, inner and last run of the token table with one and two values), with key-only and exact queries for those keys.",
+ "C28": "Hash-map iteration is driven over three layouts (8, 2 and 1 buckets), so the failing item is a first, inner or last ID of its bucket.",
  "C35": "The race pass also runs three concurrent builds from one shared in-memory source per scene.",
  "C40": "Pairs of the world-level requests are also explored from the state in which world w1 already exists; an outcome counts as the recorded write skew only if the evaluation half leaves the service's worlds unchanged.",
  "C15": "Histories include 12 tag edits; plus a repeat menu (paths revisiting a point, members listed twice) and 126 reference-cycle graphs (relations / collections / both, length 1-3) as static worlds and closed by edit histories.",
